@@ -17,7 +17,7 @@ import (
 
 func init() {
 	Register(&Scenario{Prop: "C18", Name: "close-drop", Run: scenC18, SoftParks: true, Weight: 1,
-		Rule: "instance P with 1-3 databases and a feeder peer Q; 2-8 writes and replications; then Close of one store, Close of the instance, or Drop of one store at a moment drawn per run: idle, while a writer is parked at one of the three write-path hooks, while block fetches of a replication are pending, while a fetched batch is parked before being joined (load-end hook), or while Load(-1) runs (local block reads take kernel steps then; 0-6 of them are served before the action); Close is repeated 1-3 times; afterwards every public operation is invoked once on the closed object and must return within 30 virtual seconds without panic; 15 virtual seconds later the per-creator counts of goroutines created in go-orbit-db / go-ipfs-log packages must be back to the counts taken before the closed object was opened; after Close, reopen + Load(-1) must recover every acknowledged entry; after Drop the database reopens empty and the sibling databases' contents and cache keys are unchanged; non-trivial = the close happened at a non-idle moment or the object had replicated entries, and all post-close operations were exercised"})
+		Rule: "instance P with 1-3 databases and a feeder peer Q; 2-8 writes and replications; then Close of one store, Close of the instance, or Drop of one store at a moment drawn per run: idle, while a writer is parked at one of the three write-path hooks, while block fetches of a replication are pending, while a fetched batch is parked before being joined (load-end hook), while a head exchange waits on the pairwise channel for a peer that subscribed to the database topics only (the closed store must take its share of those waiting goroutines with it), or while Load(-1) runs (local block reads take kernel steps then; 0-6 of them are served before the action); Close is repeated 1-3 times; afterwards every public operation is invoked once on the closed object and must return within 30 virtual seconds without panic; 15 virtual seconds later the per-creator counts of goroutines created in go-orbit-db / go-ipfs-log packages must be back to the counts taken before the closed object was opened; after Close, reopen + Load(-1) must recover every acknowledged entry; after Drop the database reopens empty and the sibling databases' contents and cache keys are unchanged; non-trivial = the close happened at a non-idle moment or the object had replicated entries, and all post-close operations were exercised"})
 }
 
 var goroutineHdr = regexp.MustCompile(`(?m)^created by ((?:berty\.tech/go-orbit-db|berty\.tech/go-ipfs-log)[^\s]*) in goroutine`)
@@ -69,7 +69,7 @@ func scenC18(k *K) {
 	ndb := k.C.Range(1, 3)
 	types := []string{"keyvalue", "eventlog", "docstore"}
 	action := k.C.Intn(3) // 0 close store, 1 close instance, 2 drop store
-	moment := k.C.Intn(5) // 0 idle, 1 mid-write, 2 mid-replication (wants pending), 3 load-end parked, 4 mid-load
+	moment := k.C.Intn(6) // 0 idle, 1 mid-write, 2 mid-replication (wants pending), 3 load-end parked, 4 mid-load, 5 head exchange waiting for a peer
 	target := k.C.Intn(ndb)
 	// goroutine baseline for instance-level close is taken before anything of P's was opened:
 	// P itself is already running, so for action 1 the comparison is against "P freshly started"
@@ -178,7 +178,8 @@ func scenC18(k *K) {
 	}
 	// ---- bring the target to the chosen moment ----
 	var inflight []*Op
-	momentName := []string{"idle", "mid-write", "mid-replication", "load-end-parked", "mid-load"}[moment]
+	momentName := []string{"idle", "mid-write", "mid-replication", "load-end-parked", "mid-load", "exchange-waiting"}[moment]
+	var waiters map[string]int // goroutines (by creator) that every open store of P started when the silent peer appeared
 	switch moment {
 	case 1:
 		point := []string{"store.after-append", "store.after-head-persisted", "store.after-index"}[k.C.Intn(3)]
@@ -254,7 +255,9 @@ func scenC18(k *K) {
 	for a, v := range snapSiblings() {
 		siblingsBefore[a] = v
 	}
-	k.W.Stat("close-moment:" + momentName)
+	if moment != 5 {
+		k.W.Stat("close-moment:" + momentName)
+	}
 	// the feeder leaves before the count is taken: whatever it would do in reaction to P's
 	// closing (waiting for P on the pair channel, ...) is its own business, not a leak of P's
 	qop := k.StopPeer(Q)
@@ -264,6 +267,42 @@ func scenC18(k *K) {
 		kernelSleep(time.Second)
 	}
 	k.W.Detach(Q.Inc)
+	k.Wait()
+	if moment == 5 {
+		// a peer that subscribes to the database topics and never to the pairwise channel:
+		// every store of P starts a head exchange with it and waits for it on the channel
+		k.Wait()
+		beforeZ := sutGoroutines()
+		z := k.NewAdversary()
+		for _, r := range dbs {
+			z.JoinTopic(r.addr)
+		}
+		saved := k.F
+		k.F = FaultCfg{Refresh: 5, Deliver: 3, Tick: 1}
+		seen := false
+		for j := 0; j < 300 && !seen; j++ {
+			k.Step()
+			seen = true
+			k.W.mu.Lock()
+			for _, r := range dbs {
+				if !P.Inc.view[r.addr][z.Node.Idx] {
+					seen = false
+				}
+			}
+			k.W.mu.Unlock()
+		}
+		k.Tick(2500 * time.Millisecond)
+		k.Steps(10)
+		k.F = saved
+		k.Wait()
+		if seen {
+			waiters = goroutineDelta(beforeZ, sutGoroutines())
+		} else {
+			momentName += "(not reached)"
+			moment = 0
+		}
+		k.W.Stat("close-moment:" + momentName)
+	}
 	k.Wait()
 	atClose := sutGoroutines()
 	// ---- the action, repeated ----
@@ -388,6 +427,19 @@ func scenC18(k *K) {
 		delta = deltaInstance
 	}
 	var ex []string
+	// every open store started the same goroutines when the silent peer appeared: the closed
+	// store must take its share of them with it (closing the instance: all of them)
+	for c, n := range waiters {
+		share := 0
+		if action == 1 {
+			share = n
+		} else if n%ndb == 0 {
+			share = n / ndb
+		}
+		if share > 0 && after[c] > max(0, atClose[c]-delta[c]-share) {
+			ex = append(ex, fmt.Sprintf("%s: %d started by P's %d stores when a peer appeared that never joins the pairwise channel, %d at close, %d remain", c, n, ndb, atClose[c], after[c]))
+		}
+	}
 	for c, v := range after {
 		if allowed := atClose[c] - delta[c]; v > allowed {
 			ex = append(ex, fmt.Sprintf("%s: %d at close, %d started when the object was opened, %d remain", c, atClose[c], delta[c], v))
